@@ -367,3 +367,54 @@ func kxHistReduced(t *engine.T, gen bool, depth int) {
 	t.AddStates(histories)
 	t.Nontrivial(fmt.Sprintf("kx-hist/reduced/gen=%v/depth=%d/ops=%d", gen, depth, len(ops)))
 }
+
+// ---- identity-length alignment of the decryptors. The KDF input of SM9 decryption and key unwrapping is
+// C1 || w || uid, so the decryptor's OWN identity length moves the alignment of the hashed prefix, and the length of
+// the hostile C2 chooses the number of output blocks (the lane class of the multi-lane KDF). One fixed identity, as
+// in the entry point bindings above, visits one residue. Here: every identity length 0..63 (+64, 65) x C2 lengths in
+// every lane class; the input is a genuine C1 followed by junk (C3, C2), offered to Decrypt (raw form) and UnwrapKey. Oracle: returns, no panic.
+func uidAlignmentCase(t *engine.T, lo, hi int) {
+	master := kr.SM9EncMaster()
+	for L := lo; L <= hi; L++ {
+		uid := make([]byte, L)
+		for i := range uid {
+			uid[i] = byte('a' + i%26)
+		}
+		var user *sm9.EncryptPrivateKey
+		var c1 []byte
+		if t.Guard("sm9.uid-alignment/setup", func() {
+			var err error
+			user, err = master.GenerateUserKey(uid, sm9HidEnc)
+			if err != nil {
+				user = nil
+				return
+			}
+			_, c1, err = sm9.WrapKey(detRand(fmt.Sprintf("uid-align:%d", L)), master.PublicKey(), uid, sm9HidEnc, 16)
+			if err != nil {
+				c1 = nil
+			}
+		}) || user == nil || c1 == nil {
+			t.Extra("seeds_unbuildable", 1)
+			continue
+		}
+		for _, n := range []int{1, 31, 32, 33, 64, 65, 96, 97, 128, 129, 224, 225, 257, 1000} {
+			junk := make([]byte, 32+n)
+			for i := range junk {
+				junk[i] = byte(0x3c + 7*i)
+			}
+			raw := append(append([]byte{}, c1...), junk...)
+			t.Guard("sm9.Decrypt[raw]/uid-alignment", func() { sm9.Decrypt(user, uid, raw, sm9.DefaultEncrypterOpts) })
+			t.Guard("sm9.UnwrapKey/uid-alignment", func() { sm9.UnwrapKey(user, uid, c1, n) })
+			t.Eval(2)
+		}
+		t.Nontrivial(fmt.Sprintf("sm9.uid-alignment/%d", L%64))
+	}
+}
+
+func runUIDAlignment(c *engine.Ctx) {
+	for lo := 0; lo <= 65; lo += 6 {
+		lo := lo
+		hi := min(lo+5, 65)
+		kase(c, fmt.Sprintf("sm9.Decrypt+UnwrapKey/uid-alignment/uidlen=%d..%d", lo, hi), func(t *engine.T) { uidAlignmentCase(t, lo, hi) })
+	}
+}
